@@ -213,6 +213,184 @@ fn new_requests_for(msgs: &[Msg], _mon: &Mon, piece: u32, new_requests: usize) -
 }
 
 // -------------------------------------------------------------------------------------------
+// One connection whose peer chokes in the middle of a piece: a choke ends the fetch (BEP3: the
+// choking peer discards our requests); blocks still in flight arrive behind the Choke
+// -------------------------------------------------------------------------------------------
+
+pub struct TilingChoke {
+    pub len: usize,
+}
+
+#[derive(Default)]
+pub struct MonC {
+    pub outstanding: Vec<(u32, u32, u32)>,
+    /// Requests that were outstanding when the peer choked: their answers may still arrive (L<k>).
+    pub late: Vec<(u32, u32, u32)>,
+    pub cur: Option<u32>,
+    pub requested: BTreeSet<(u32, u32)>,
+    pub answered_bytes: u32,
+    pub scanned: usize,
+    pub choked: bool,
+    pub chokes: usize,
+    pub stored: Vec<bool>,
+}
+
+impl Scenario for TilingChoke {
+    type Mon = MonC;
+    fn name(&self) -> String {
+        format!("tiling-choke-{}", self.len)
+    }
+    fn cfg(&self) -> WorldCfg {
+        WorldCfg { torrent: Torrent::new("t", self.len, &[("f", self.len + 5)], true), have: vec![], peers: vec![peer_cfg(0, true)], gated: false, stale: vec![] }
+    }
+    fn setup(&self, w: &mut World, _mon: &mut MonC) {
+        let t = w.t.clone();
+        let id = w.peers[0].cfg.id;
+        w.feed(0, &[refwire::handshake(t.meta.info_hash(), &id), Msg::Bitfield(refwire::bitfield_bytes(&vec![true; t.hashes.len()])), Msg::Unchoke]);
+    }
+    fn enabled(&self, w: &World, mon: &MonC, _depth: usize) -> Vec<String> {
+        if w.peers[0].ended.get() {
+            return vec![];
+        }
+        let mut e = vec![];
+        if mon.choked {
+            e.push("U".to_string());
+            e.extend((0..mon.late.len()).map(|k| format!("L{}", k)));
+        } else {
+            e.extend((0..mon.outstanding.len()).map(|k| format!("A{}", k)));
+            if mon.chokes < 2 {
+                e.push("C".to_string());
+            }
+        }
+        e
+    }
+    fn concretize(&self, w: &World, mon: &MonC, sym: &str) -> Vec<Ev> {
+        match &sym[..1] {
+            "U" => vec![Ev::Feed(0, refwire::encode(&Msg::Unchoke))],
+            "C" => vec![Ev::Feed(0, refwire::encode(&Msg::Choke))],
+            "A" => {
+                let r = mon.outstanding[sym[1..].parse::<usize>().unwrap()];
+                vec![Ev::Feed(0, refwire::encode(&Msg::Piece(r.0, r.1, block_bytes(&w.t, &r))))]
+            }
+            _ => {
+                let r = mon.late[sym[1..].parse::<usize>().unwrap()];
+                vec![Ev::Feed(0, refwire::encode(&Msg::Piece(r.0, r.1, block_bytes(&w.t, &r))))]
+            }
+        }
+    }
+    fn check(&self, w: &World, mon: &mut MonC, last: Option<&str>) -> Option<(&'static str, String)> {
+        if let Some(d) = &w.dead {
+            return Some(("manager-died", d.clone()));
+        }
+        if let Some(p) = w.handler_panics.first() {
+            return Some(("connection-task-panicked", p.clone()));
+        }
+        let t = &w.t;
+        if mon.stored.is_empty() {
+            mon.stored = vec![false; t.pieces.len()];
+        }
+        let mut accepted: Option<(u32, u32, u32)> = None;
+        let mut late_fed: Option<(u32, u32, u32)> = None;
+        match last.map(|s| (&s[..1], s)) {
+            Some(("C", _)) => {
+                mon.late = std::mem::take(&mut mon.outstanding);
+                mon.choked = true;
+                mon.chokes += 1;
+                mon.cur = None;
+                mon.requested.clear();
+                mon.answered_bytes = 0;
+            }
+            Some(("U", _)) => {
+                mon.choked = false;
+                mon.late.clear();
+            }
+            Some(("A", s)) => {
+                let r = mon.outstanding.remove(s[1..].parse::<usize>().unwrap());
+                mon.answered_bytes += r.2;
+                accepted = Some(r);
+            }
+            Some(("L", s)) => late_fed = Some(mon.late.remove(s[1..].parse::<usize>().unwrap())),
+            _ => {}
+        }
+        // the last outstanding block of the piece arrived: judged before the requests for the next piece
+        if let (Some(r), Some(cur)) = (accepted, mon.cur) {
+            let plen = t.pieces[cur as usize].len() as u32;
+            if r.0 == cur && mon.answered_bytes == plen {
+                let covered: u32 = mon.requested.iter().map(|x| x.1).sum();
+                let mut pos = 0;
+                let n = mon.requested.len();
+                for (k, (b, l)) in mon.requested.iter().enumerate() {
+                    if *b != pos || (*l != 16384 && k + 1 != n) {
+                        return Some(("piece-not-tiled", format!("piece {}: blocks {:?}", cur, mon.requested)));
+                    }
+                    pos += l;
+                }
+                if covered != plen {
+                    return Some(("piece-not-tiled", format!("piece {} of {} bytes: requests cover {} bytes: {:?}", cur, plen, covered, mon.requested)));
+                }
+                if !w.has_piece_file(cur as usize) {
+                    return Some(("piece-not-completed-on-last-block", format!("all {} bytes of piece {} were answered but it is not stored", plen, cur)));
+                }
+                mon.cur = None;
+                mon.requested.clear();
+                mon.answered_bytes = 0;
+                accepted = None;
+            }
+        }
+        let covered_before: u32 = mon.requested.iter().map(|x| x.1).sum();
+        let msgs = &w.peers[0].msgs;
+        let mut new_requests = 0;
+        for m in &msgs[mon.scanned..] {
+            if let Msg::Request(i, b, l) = m {
+                new_requests += 1;
+                if mon.choked {
+                    return Some(("request-while-choked", format!("{:?} written while the peer chokes us (after {:?}): it belongs to no decision to fetch a piece, the choke ended the last one", m, last)));
+                }
+                if *i as usize >= t.pieces.len() {
+                    return Some(("request-for-unknown-piece", format!("{:?}", m)));
+                }
+                let plen = t.pieces[*i as usize].len() as u32;
+                if *l == 0 || *l > 16384 || b.checked_add(*l).map(|e| e > plen).unwrap_or(true) {
+                    return Some(("request-outside-piece-or-too-long", format!("{:?} for a piece of {} bytes", m, plen)));
+                }
+                match mon.cur {
+                    None => mon.cur = Some(*i),
+                    Some(j) if j != *i => return Some(("request-names-another-piece", format!("{:?} while piece {} is only partly requested ({:?})", m, j, mon.requested))),
+                    _ => {}
+                }
+                for (b2, l2) in mon.requested.iter() {
+                    if *b < b2 + l2 && *b2 < b + l {
+                        return Some(("overlapping-or-repeated-request", format!("{:?} overlaps ({}, {})", m, b2, l2)));
+                    }
+                }
+                mon.requested.insert((*b, *l));
+                mon.outstanding.push((*i, *b, *l));
+            }
+        }
+        mon.scanned = msgs.len();
+        if let (Some(r), Some(cur)) = (accepted, mon.cur) {
+            let plen = t.pieces[cur as usize].len() as u32;
+            if covered_before < plen && new_requests == 0 {
+                return Some(("accepted-block-not-followed-by-request", format!("block {:?} accepted, {} bytes of the piece were never requested, no request written", r, plen - covered_before)));
+            }
+        }
+        for i in 0..t.pieces.len() {
+            let has = w.has_piece_file(i);
+            if has && !mon.stored[i] {
+                if let Some(r) = late_fed {
+                    return Some(("piece-completed-by-blocks-after-choke", format!("piece {} was stored when block {:?} arrived behind the peer's Choke: the choke had ended that fetch, nothing was outstanding", i, r)));
+                }
+            }
+            mon.stored[i] = has;
+        }
+        None
+    }
+    fn key(&self, w: &World, mon: &MonC) -> String {
+        format!("{} out={:?} late={:?} cur={:?} req={:?} ans={} choked={} chokes={}", w.default_key(), mon.outstanding, mon.late, mon.cur, mon.requested, mon.answered_bytes, mon.choked, mon.chokes)
+    }
+}
+
+// -------------------------------------------------------------------------------------------
 // Two connections in end game: assignments get cancelled when the other connection finishes first
 // -------------------------------------------------------------------------------------------
 
@@ -463,6 +641,14 @@ pub fn run(ctx: &Ctx) -> Outcome {
         per.push(json!({"scenario": s.name(), "depth": depth, "states": st.states, "transitions": st.transitions, "depth_completed": st.depth_completed}));
         total.merge(&st);
     }
+    // the peer chokes (at most twice) in the middle of a piece; blocks in flight arrive behind the Choke
+    for len in ctx.tier.pick(vec![40000usize], vec![40000usize, 16385, 65541]) {
+        let s = TilingChoke { len };
+        let depth = ctx.tier.pick(9, 13);
+        let st = explore::bfs(ctx, &s, depth, ctx.tier.pick(7, 1));
+        per.push(json!({"scenario": Scenario::name(&s), "depth": depth, "states": st.states, "transitions": st.transitions, "depth_completed": st.depth_completed}));
+        total.merge(&st);
+    }
     for len in ctx.tier.pick(vec![40000usize], vec![40000usize, 16385, 49152]) {
         let s = Tiling2 { len };
         let depth = ctx.tier.pick(9, 14);
@@ -474,7 +660,7 @@ pub fn run(ctx: &Ctx) -> Outcome {
     explore::stats_outcome(&total, &mut o);
     o.set("block_lists_enumerated", json!(enumerated));
     o.set("scenarios", Value::Array(per));
-    o.set("rule", json!("E-ENUM: PieceRx::left(n) for every n in 1..=81921. E-SYS: per piece length in [1,16383,16384,16385,32768,32769,49153] a 2-piece torrent (second piece = short last piece of 5 bytes); events A<k> = correct answer to the k-th outstanding request, D = duplicate of the last answered block; BFS over all histories until both pieces are complete (depth <= 14); a state = canonical snapshot of manager + handler + files + outstanding set. Mind-changing peer (tiling-<len>-mind12): 12 pieces (outside end game), the peer advertises piece 0 only and may, while it is being fetched, send the same Bitfield again (B), Have(1) (H) and a Request of its own for a piece the client lacks (Q, refused): requests must not name another piece while the current one is only partly requested. Two-connection scenarios (tiling2-<len>): 3 pieces of <len> bytes, two connections (end game, so both may be asked for the same piece and the slower one is cancelled and re-assigned), events U<k> unchoke, V<k> one repeated unchoke, X<k> loss of a connection, A<k>:<j> correct answer to the j-th outstanding request of connection k, every chooser tie-break; the same tiling / follow-up / completion obligations per assignment, plus: no connection waits for a block already delivered, requested blocks are tracked."));
+    o.set("rule", json!("E-ENUM: PieceRx::left(n) for every n in 1..=81921. E-SYS: per piece length in [1,16383,16384,16385,32768,32769,49153] a 2-piece torrent (second piece = short last piece of 5 bytes); events A<k> = correct answer to the k-th outstanding request, D = duplicate of the last answered block; BFS over all histories until both pieces are complete (depth <= 14); a state = canonical snapshot of manager + handler + files + outstanding set. Mind-changing peer (tiling-<len>-mind12): 12 pieces (outside end game), the peer advertises piece 0 only and may, while it is being fetched, send the same Bitfield again (B), Have(1) (H) and a Request of its own for a piece the client lacks (Q, refused): requests must not name another piece while the current one is only partly requested. Choking peer (tiling-choke-<len>): one connection, 2 pieces; C = the peer chokes (at most twice, at any point of the piece), U = it unchokes again, A<k> as above, L<k> = the answer to a request that was outstanding when it choked arrives behind the Choke, in any order; a choke ends the fetch (the manager gives the piece free), so while choked no request may be written and no late block may complete a piece; after the unchoke the newly assigned piece is tiled from the start, same obligations. Two-connection scenarios (tiling2-<len>): 3 pieces of <len> bytes, two connections (end game, so both may be asked for the same piece and the slower one is cancelled and re-assigned), events U<k> unchoke, V<k> one repeated unchoke, X<k> loss of a connection, A<k>:<j> correct answer to the j-th outstanding request of connection k, every chooser tie-break; the same tiling / follow-up / completion obligations per assignment, plus: no connection waits for a block already delivered, requested blocks are tracked."));
     o.assume("one connection, honest payloads (corrupt ones are C01's subject), tie-breaks of the piece chooser fixed to the identity shuffle");
     o
 }
@@ -486,6 +672,9 @@ pub fn replay(_ctx: &Ctx, r: &Value) -> i32 {
         return 1;
     }
     let name = r["scenario"].as_str().unwrap();
+    if let Some(len) = name.strip_prefix("tiling-choke-") {
+        return explore::replay_verbose(&TilingChoke { len: len.parse().unwrap() }, &explore::hist_from_json(&r["history"]), "C10");
+    }
     if let Some(len) = name.strip_prefix("tiling2-") {
         return explore::replay_verbose(&Tiling2 { len: len.parse().unwrap() }, &explore::hist_from_json(&r["history"]), "C10");
     }
